@@ -36,6 +36,8 @@ struct Files {
     cur_stream: i32,
     /// the reading end of an earlier, still living Popen's stdout pipe ("file:@earlier": a hand-made pipeline)
     earlier_out: Option<File>,
+    /// descriptor of an earlier, still living Popen's stdin pipe (its writing end), or -1
+    earlier_in_fd: i32,
 }
 impl Files {
     fn path(name: &str) -> String {
@@ -163,12 +165,19 @@ fn one_spawn(v: &Value, files: &mut Files, out: &mut Vec<String>, idx: usize) {
     // "repoint": between two launches of the same thread the parent re-points its own stdout / stderr at
     // another file (dup2 onto fd 1 / 2, as a daemonising or log-rotating program does); the next child must
     // inherit (and merge onto) the parent's CURRENT stream
-    if idx >= 1 {
+    if idx >= v["repoint_from"].as_u64().unwrap_or(1) as usize {
         if let Some(which) = v["repoint"].as_i64() {
-            let p = format!("{}/repoint_{}_{}", tmpd(), which, idx);
-            let f = fs::OpenOptions::new().create(true).write(true).truncate(true).open(&p).unwrap();
-            unsafe {
-                simk::raw::dup2(f.as_raw_fd(), which as i32);
+            if v["repoint_earlier"].as_bool().unwrap_or(false) {
+                // ... at the writing end of a living Popen's stdin pipe (the parent logs through a child)
+                unsafe {
+                    simk::raw::dup2(files.earlier_in_fd, which as i32);
+                }
+            } else {
+                let p = format!("{}/repoint_{}_{}", tmpd(), which, idx);
+                let f = fs::OpenOptions::new().create(true).write(true).truncate(true).open(&p).unwrap();
+                unsafe {
+                    simk::raw::dup2(f.as_raw_fd(), which as i32);
+                }
             }
         }
     }
@@ -366,7 +375,7 @@ fn run_one_inner(v: &Value, out: &mut Vec<String>) {
 
 fn run_one_body(v: &Value, out: &mut Vec<String>) {
     let _ = fs::create_dir_all(tmpd());
-    let mut files = Files { masters: Default::default(), next_off: 0, opened: vec![], cur_stream: 0, earlier_out: None };
+    let mut files = Files { masters: Default::default(), next_off: 0, opened: vec![], cur_stream: 0, earlier_out: None, earlier_in_fd: -1 };
     out.push(json!({"e":"reset","id":v["id"],"kind":"spawn","cfg":{
         "stdin":v["stdin"].as_str().unwrap_or("none").split(':').next().unwrap(),
         "stdout":v["stdout"].as_str().unwrap_or("none").split(':').next().unwrap(),
@@ -439,6 +448,7 @@ fn run_one_body(v: &Value, out: &mut Vec<String>) {
             earlier[0].stdout = Some(f);
         }
     }
+    let earlier_in_fd: i32 = earlier.get(0).and_then(|p| p.stdin.as_ref()).map(|f| f.as_raw_fd()).unwrap_or(-1);
     let saved_std: Option<(i32, i32)> = v["repoint"].as_i64().map(|w| {
         let keep = unsafe { simk::raw::fcntl(w as i32, libc::F_DUPFD_CLOEXEC, 100) };
         (w as i32, keep)
@@ -447,8 +457,9 @@ fn run_one_body(v: &Value, out: &mut Vec<String>) {
     let in_thread = v["thread"].as_bool().unwrap_or(false);
     let mut body = |out: &mut Vec<String>| {
         let old = set_mask(&mask);
-        let mut files = Files { masters: Default::default(), next_off: 100, opened: vec![], cur_stream: 0, earlier_out: None };
+        let mut files = Files { masters: Default::default(), next_off: 100, opened: vec![], cur_stream: 0, earlier_out: None, earlier_in_fd: -1 };
         files.earlier_out = earlier_out.take();
+        files.earlier_in_fd = earlier_in_fd;
         for i in 0..repeat {
             one_spawn(v, &mut files, out, i);
         }
@@ -460,7 +471,8 @@ fn run_one_body(v: &Value, out: &mut Vec<String>) {
             let mut o = vec![];
             let mask: Vec<i64> = v2["mask"].as_array().map(|l| l.iter().map(|x| x.as_i64().unwrap()).collect()).unwrap_or_default();
             let old = set_mask(&mask);
-            let mut files = Files { masters: Default::default(), next_off: 100, opened: vec![], cur_stream: 0, earlier_out: None };
+            let mut files = Files { masters: Default::default(), next_off: 100, opened: vec![], cur_stream: 0, earlier_out: None, earlier_in_fd: -1 };
+            files.earlier_in_fd = earlier_in_fd;
             for i in 0..v2["repeat"].as_u64().unwrap_or(1) as usize {
                 one_spawn(&v2, &mut files, &mut o, i);
             }
